@@ -275,6 +275,11 @@ def correspondence(ctx, summ):
         ctx.nontriv((nm, d0))
         if a == b:
             continue
+        ndrill = getattr(ctx, "_ndrill", 0)
+        if ndrill >= 6:      # enough failing dates pinned down; the remaining differing years are only counted
+            ctx.count("further differing (name, year) blocks not drilled down")
+            continue
+        ctx._ndrill = ndrill + 1
         lines = [hline("one", nm, [d]) for d in range(d0, d0 + cnt)]
         sa = run_harness("named", lines)
         sb = coq_eval("Run.RunNamed", "runNamed", [[2] + enc(nm) + [d] for d in range(d0, d0 + cnt)], ctx.work, tag="drill")
